@@ -255,3 +255,5 @@ _also("C14", rule="manager level (monitoring on, accept timeout on the virtual c
 CHECKS["C01"]["packages"] = ["l3e2e", "l2node"]
 _also("C01", rule="manager level: the responder's completion with the Complete message held in the network send while the application issues each accepting validation update: an un-paused Complete is only announced by a responder that then settles in Completed.")
 _also("C05", rule="transport level: the routing BFS over the real graphsync transport also decides C05 - a data-transfer message of the wrong kind for its sender's role, from a peer that is not the channel's other party or naming another transfer, in either of the two extensions a graphsync response / request update can carry, reaches no events handler and terminates the graphsync request.")
+CHECKS["C11"]["packages"] = ["l1chan", "l2node", "schedh"]
+_also("C11", technique="deviation-bounded scheduler enumeration (the counterparty's resume vs a local pause) at lock + datastore granularity", rule="scheduler cells: on a responder whose initiator is paused, the initiator's resume (transport callback / network message) races with a local pause, <=1 (thorough 2) preemptions: whenever the local pause is applied first the resume is answered with the pause signal (resp. the transport is paused again), and the flags end initiator-running / responder-paused.")
